@@ -15,6 +15,8 @@ import (
 
 	"istio.io/istio/pilot/pkg/features"
 	"istio.io/istio/pilot/pkg/model"
+	xdsfake "istio.io/istio/pilot/test/xds"
+	"istio.io/istio/pkg/config/host"
 	"verifharness/internal/quiet"
 	"verifharness/internal/vh"
 )
@@ -226,6 +228,7 @@ func checkWorld(c *vh.Ctx, w *World, stratum string) {
 				emptySel = true
 			}
 		}
+		checkNamespaceView(c, s, client, clusters, w, n, pols, emptySel)
 		protoOf := map[uint32]string{}
 		for _, p := range n.Ports {
 			protoOf[p.Target] = p.Proto
@@ -260,8 +263,8 @@ func checkWorld(c *vh.Ctx, w *World, stratum string) {
 			}
 			// ---------------- leg 1: sidecar inbound
 			px := sidecarProxy(s, wl)
-			if len(px.ServiceTargets) != len(n.Ports) {
-				vh.Abort("proxy %s has %d service targets, want %d (world setup)", px.ID, len(px.ServiceTargets), len(n.Ports))
+			if len(px.ServiceTargets) != 2*len(n.Ports) { // service "svc" and its headless twin "hl"
+				vh.Abort("proxy %s has %d service targets, want %d (world setup)", px.ID, len(px.ServiceTargets), 2*len(n.Ports))
 			}
 			var vi *listener.Listener
 			for _, l := range s.Listeners(px) {
@@ -469,4 +472,98 @@ func dumpPolicies(st *ambientState, wl interface{ GetAuthorizationPolicies() []s
 		}
 	}
 	return out
+}
+
+
+// checkNamespaceView: legs 4 and 5. The namespace/mesh-level view of the mode ("what applies to a
+// workload of the namespace that no workload-level policy selects") is derived a second time inside
+// istio for client-side inference. Leg 4 reads that resolver directly (push context and the client's
+// sidecar scope); leg 5 looks at its user-visible effect: the cluster of a headless service
+// (ORIGINAL_DST) has one transport socket for all endpoints, so the client originates mutual TLS iff the
+// namespace-wide mode is not DISABLE. Leg 5 is asserted only when every workload port behind the service
+// agrees with the namespace-wide reference on DISABLE-ness (no narrower policy flips it): mixed
+// namespaces cannot be served correctly by a single socket and the property does not say which side wins.
+func checkNamespaceView(c *vh.Ctx, s *xdsfake.FakeDiscoveryServer, client *model.Proxy, clusters map[string]*cluster.Cluster,
+	w *World, n NSWorld, pols []Policy, emptySel bool,
+) {
+	want := refWide(rootNS, Workload{NS: n.NS}, pols)
+	fam := func(leg string) string {
+		if tiedAt(rootNS, Workload{NS: n.NS}, pols) {
+			leg += "-tie"
+		}
+		if emptySel {
+			leg += "-emptysel"
+		}
+		return leg
+	}
+	norm := func(m model.MutualTLSMode) Mode {
+		switch m {
+		case model.MTLSDisable:
+			return DISABLE
+		case model.MTLSPermissive:
+			return PERMISSIVE
+		case model.MTLSStrict:
+			return STRICT
+		}
+		return PERMISSIVE // unknown: no namespace or mesh policy; every consumer falls back to PERMISSIVE
+	}
+	mesh, nsl, _ := winners(rootNS, Workload{NS: n.NS}, pols)
+	shape := func() string {
+		d := func(p *Policy) string {
+			if p == nil {
+				return "absent"
+			}
+			return p.Mode.String()
+		}
+		o := ""
+		if mesh != nil && nsl != nil {
+			o = ":namespace-policy-newer"
+			if nsl.TS < mesh.TS || (nsl.TS == mesh.TS && nsl.Name < mesh.Name) {
+				o = ":namespace-policy-older"
+			}
+		}
+		return "ns=" + d(nsl) + ":mesh=" + d(mesh) + o
+	}
+	c.SetAdd("nsview_shapes", shape())
+	for src, ap := range map[string]interface {
+		GetNamespaceMutualTLSMode(string) model.MutualTLSMode
+	}{"push-context": s.PushContext().AuthnPolicies, "client-sidecar-scope": client.SidecarScope.AuthnPolicies} {
+		got := norm(ap.GetNamespaceMutualTLSMode(n.NS))
+		c.Count("nsview_checked", 1)
+		if got != want {
+			c.Violation(fmt.Sprintf("%s:ref=%s:got=%s:%s:src=%s", fam("nsview"), want, got, shape(), src),
+				fmt.Sprintf("namespace %s: namespace/mesh-level mode is %s by precedence (%s) but the %s resolves %s for client-side inference", n.NS, want, shape(), src, got),
+				map[string]any{"mesh": w.Mesh, "namespace": n})
+		}
+	}
+	for _, p := range n.Ports {
+		cn := model.BuildSubsetKey(model.TrafficDirectionOutbound, "", host.Name("hl."+n.NS+".svc.cluster.local"), p.Svc)
+		cl := clusters[cn]
+		if cl == nil {
+			vh.Abort("cds: headless cluster %s missing (world setup)", cn)
+		}
+		if cl.GetType() != cluster.Cluster_ORIGINAL_DST {
+			vh.Abort("cds: headless cluster %s has type %v (world setup)", cn, cl.GetType())
+		}
+		uniform := true
+		for _, wl := range n.Workloads {
+			m, _ := refMode(rootNS, wl, p.Target, pols)
+			if (m == DISABLE) != (want == DISABLE) {
+				uniform = false
+			}
+		}
+		if !uniform {
+			c.Count("headless_unspecified_mixed_modes_behind_one_socket", 1)
+			continue
+		}
+		tls, via := clientSendsTLS(cl, nil)
+		c.Count("headless_checked", 1)
+		c.SetAdd("headless_outcomes", fmt.Sprintf("%s client-tls=%v via=%s", want, tls, via))
+		if tls != (want != DISABLE) {
+			c.Violation(fmt.Sprintf("%s:ref=%s:client-originates-tls=%v:%s", fam("headless"), want, tls, shape()),
+				fmt.Sprintf("client %s, headless cluster %s: every workload port behind it has reference mode %s-like (namespace-wide %s, %s) but the cluster socket is %s (client originates TLS=%v)",
+					client.ID, cn, want, want, shape(), via, tls),
+				map[string]any{"mesh": w.Mesh, "namespace": n, "cluster": cn})
+		}
+	}
 }
